@@ -20,6 +20,20 @@ Decided (necessary conditions, visible in the shape of the code):
       path on which a shallow copy is made (CFG: each path entry -> return passes the re-creation unless it
       took a branch on which ``deep`` is truthy; a re-creation guarded by the container's contents is a miss).
       Values that come from a fresh deserialization / constructor / deep copy are snapshots.
+* R3  no mutator has a normal path that skips its write (sibling agreement on "a write always writes"):
+      (a) in ``set`` of each store every CFG path from entry to a NORMAL return executes the shared ``set_by_path``
+          (directly, or in a method of the store that executes it on all of its normal paths) — whatever the
+          value; an early exit / nested guard around the path write (e.g. "skip when the stored value == value")
+          is reported: Python ``==`` is not JSON identity (None default stands for `missing`, True == 1, 2 == 2.0),
+          and a ``set`` that returns normally without writing makes a later ``get`` differ from the model;
+      (b) the object ``set_by_path`` writes into is the stored object itself (provenance: a field of the store,
+          not a copy), or the object yielded by the store's own ``edit_state()`` context manager, or a loaded copy
+          that is saved (field assignment / private INSERT-UPDATE method given that same object) on every normal
+          path after the path write;
+      (c) ``edit_state`` (generator context manager): after the yield every normal path writes the yielded object
+          back, unless the yielded object is the stored object itself;
+      (d) ``set_state`` and ``clear``: every normal path performs a write of the state or delegates to a mutator /
+          ``edit_state()`` block that does.  Paths that end in an exception are not normal returns.
 
 Not decided: equality of values with a nested-dict model over operation sequences (reduced to "both
 stores call the same helpers with the same argument roles"), JSON round-trip fidelity of values, nested
@@ -32,7 +46,7 @@ from __future__ import annotations
 
 import ast
 
-from ..astx import atoms, call_name, calls, dotted, enclosing_stmt, expand, last
+from ..astx import atoms, call_name, calls, dep_slice, dotted, enclosing_stmt, expand, last
 from ..cfg import CFG
 from ..index import AnchorError, FuncNode, Module, Repo, parent, walk_shallow
 from ..selftest import Twin
@@ -46,7 +60,11 @@ EXPLANATION = (
     "R2: get_state never returns the stored object; a shallow copy of the stored object is accepted only if the default state class "
     "(DictState -> DictLikeModel) has a copy hook that re-creates the private dict holding its top-level keys on every CFG path with `deep` falsy "
     "(a guard on the dict's contents/truthiness leaves a path that shares it); fresh deserializations, "
-    "constructor results and deep copies are snapshots. NOT decided: value equality with a nested-dict model over arbitrary sequences, "
+    "constructor results and deep copies are snapshots. "
+    "R3: no mutator skips its write: in `set` of both stores every CFG path to a normal return executes set_by_path (no value-dependent early exit "
+    "or guard: Python == is not JSON identity), the object it writes into is the stored object, the object yielded by edit_state(), or a loaded copy "
+    "saved on every normal path afterwards; edit_state writes the yielded object back on every normal path after the yield; set_state and clear "
+    "write (or delegate to a mutator) on every normal path. Exception exits are not normal paths. NOT decided: value equality with a nested-dict model over arbitrary sequences, "
     "JSON round-trip fidelity, aliasing below the top level, other store implementations."
 )
 TRUSTED = [
@@ -56,7 +74,8 @@ TRUSTED = [
 ]
 LEVEL_TEXT = "static necessary-condition rules (sibling agreement T5, aliasing T11); no repo code executed"
 LEVEL_NOTE = "A pass means the decided clauses hold, not that both stores equal a nested-dict model for every operation sequence."
-TECHNIQUE = "AST sibling comparison, import-resolved helper binding, return-value origin analysis through self-calls and repo functions"
+TECHNIQUE = ("AST sibling comparison, import-resolved helper binding, return-value origin analysis through self-calls and repo functions, "
+             "CFG must-pass (every normal path executes the write) for the mutators")
 
 MEM = "workflows.context.state_store"
 SQL = "llama_agents.server._store.sqlite.sqlite_state_store"
@@ -514,6 +533,283 @@ def _state_writes(cls: _Cls, fn: ast.AST) -> list[tuple[ast.AST, ast.AST, str]]:
     return sorted(out, key=lambda t: (t[0].lineno, t[0].col_offset))
 
 
+# ----------------------------------------------------------------------------------------------- every path writes (R3)
+
+
+def _always_evaluated(c: ast.Call) -> bool:
+    """The call is evaluated whenever its statement (or compound-statement header) is: it does not sit in the untaken arm of
+    a conditional expression, behind a short-circuit, or inside a comprehension body."""
+    cur: ast.AST = c
+    p = parent(cur)
+    while p is not None and not isinstance(p, ast.stmt):
+        if isinstance(p, ast.IfExp) and cur is not p.test:
+            return False
+        if isinstance(p, ast.BoolOp) and cur is not p.values[0]:
+            return False
+        if isinstance(p, (ast.ListComp, ast.SetComp, ast.DictComp, ast.GeneratorExp, ast.Lambda)):
+            return False
+        cur, p = p, parent(p)
+    return True
+
+
+def _call_nodes(cfg: CFG, c: ast.Call) -> list:
+    return cfg.node_of_containing(c) if _always_evaluated(c) else []
+
+
+def _skip_path(cfg: CFG, starts: list, through: list, include_starts: bool = True) -> list | None:
+    """A path from ``starts`` to the function's NORMAL exit that avoids every ``through`` node; None when there is none
+    (paths that end in an exception are not normal exits)."""
+    through = list(through)
+    first = list(starts) if include_starts else [t for s in starts for _l, t in cfg.succ[s]]
+    for s in first:
+        if any(s is b for b in through):
+            continue
+        p = cfg.path(s, cfg.exit, blocked=through)
+        if p:
+            return p
+    return None
+
+
+def _describe_skip(fn: ast.AST, cfg: CFG, path: list) -> tuple[str, list[str]]:
+    """(why the path is taken — branch tests with their polarity and the parameters they depend on, printable path)."""
+    own = set(_params(fn))
+    parts = []
+    for a, b in zip(path, path[1:]):
+        if a.kind != "test":
+            continue
+        label = next((l for l, t in cfg.succ[a] if t is b), "?")
+        test = a.ast.test
+        deps = sorted(dep_slice(fn, test).leaves & own)
+        cmp_ = any(isinstance(x, ast.Compare) and any(isinstance(o, (ast.Eq, ast.NotEq, ast.In, ast.NotIn)) for o in x.ops) for x in ast.walk(test))
+        txt = f"`{ast.unparse(test)}` is {'true' if label == 'T' else 'false'}"
+        if deps:
+            txt += f" (depends on the method's own parameter{'s' if len(deps) > 1 else ''} {', '.join(deps)})"
+        if cmp_:
+            txt += " — a Python equality test is not JSON identity (a None default stands for `missing`, True == 1, 2 == 2.0)"
+        parts.append(txt)
+    return ("; taken when " + " and ".join(parts)) if parts else "", cfg.describe_path(path)
+
+
+def _strip(e: ast.AST | None) -> ast.AST | None:
+    while e is not None:
+        if isinstance(e, ast.Await):
+            e = e.value
+        elif isinstance(e, ast.Call) and call_name(e) in ("cast", "typing.cast") and len(e.args) == 2:
+            e = e.args[1]
+        else:
+            return e
+    return e
+
+
+def _same_object(a: ast.AST | None, b: ast.AST | None) -> bool:
+    a, b = _strip(a), _strip(b)
+    if isinstance(a, ast.Name) and isinstance(b, ast.Name):
+        return a.id == b.id
+    return _is_self_attr(a) and _is_self_attr(b) and a.attr == b.attr  # type: ignore[union-attr]
+
+
+def _is_stored_object(st: _Cls, fn: ast.AST, e: ast.AST) -> str | None:
+    """Name of the field when ``e`` can only be the object held in a field of the store itself (a write into it is a write
+    of the store); None when it is (or may be) a loaded / copied object.  Unknown provenance -> AnchorError."""
+    tags = origins(st, st.m, fn, e)
+    fields = set()
+    for t in tags:
+        sh, inner = _flatten(t)
+        if inner[0] == "unknown":
+            raise AnchorError(f"C19.R3: cannot determine where `{ast.unparse(e)}` in {st.name}.{fn.name} comes from ({inner[1]})")
+        if inner[0] != "field" or sh:
+            return None
+        fields.add(inner[1])
+    return "/".join(sorted(fields)) if fields else None
+
+
+def _ctx_manager_of(st: _Cls, c: ast.Call, name_expr: ast.AST | None) -> tuple[str, ast.AST] | None:
+    """(method name, method) when ``name_expr`` is the `as` variable of a with-statement enclosing ``c`` whose context
+    expression is a call of one of the store's own generator context managers (``self.edit_state()``)."""
+    name_expr = _strip(name_expr)
+    if not isinstance(name_expr, ast.Name):
+        return None
+    p = parent(c)
+    while p is not None and not isinstance(p, FuncNode):
+        if isinstance(p, (ast.With, ast.AsyncWith)):
+            for it in p.items:
+                ce = _strip(it.context_expr)
+                if isinstance(it.optional_vars, ast.Name) and it.optional_vars.id == name_expr.id and isinstance(ce, ast.Call):
+                    sm = _self_method_call(ce)
+                    callee = st.method(sm) if sm else None
+                    if callee is not None and _decorators(callee) & {"asynccontextmanager", "contextmanager"}:
+                        return sm, callee
+        p = parent(p)
+    return None
+
+
+def _commit_nodes(st: _Cls, fn: ast.AST, cfg: CFG, obj: ast.AST | None = None) -> list:
+    """CFG nodes of ``fn`` that write the whole state: assignment to a field of the store, or a call of a private method
+    that executes an INSERT/UPDATE; with ``obj`` given only those that write that very object."""
+    out = []
+    for site, val, _kind in _state_writes(st, fn):
+        if obj is not None and not _same_object(val, obj):
+            continue
+        if isinstance(site, ast.Call):
+            out += _call_nodes(cfg, site)
+        else:
+            out += cfg.nodes_of(site)
+    return out
+
+
+def _ctx_commit_status(st: _Cls, fn: ast.AST) -> tuple[bool, str, list[str], str]:
+    """Generator context manager (edit_state): after EVERY yield, every normal path to the end writes the yielded object
+    back (or the yielded object is the stored object itself).  (ok, reason, path, how)"""
+    ys = [n for n in walk_shallow(fn) if isinstance(n, ast.Yield)]
+    if not ys or not (_decorators(fn) & {"asynccontextmanager", "contextmanager"}):
+        raise AnchorError(f"C19.R3: {st.name}.{fn.name} is not a generator context manager")
+    cfg = CFG(fn)
+    how = []
+    for y in ys:
+        if y.value is None:
+            return False, f"{fn.name} yields nothing: the caller has no state object to edit", [], "none"
+        field = _is_stored_object(st, fn, y.value)
+        if field:
+            how.append(f"in place on self.{field}")
+            continue
+        commits = _commit_nodes(st, fn, cfg, y.value)
+        ynodes = cfg.node_of_containing(y)
+        if not ynodes:
+            raise AnchorError(f"C19.R3: cannot place the yield of {st.name}.{fn.name} on its control-flow graph")
+        skip = _skip_path(cfg, ynodes, commits, include_starts=False)
+        if skip is not None:
+            why, p = _describe_skip(fn, cfg, skip)
+            return False, (f"after `yield {ast.unparse(y.value)}` a normal path reaches the end of {fn.name} without writing the edited object back"
+                           f"{why}: the edit made inside `edit_state()` (and by every mutator built on it) is lost on that path"), p, "skip"
+        how.append("written back after the yield")
+    return True, "", [], ", ".join(how)
+
+
+def _path_writes(st: _Cls, fn: ast.AST, cfg: CFG, href: str, depth: int = 2) -> tuple[list, list[tuple[ast.AST, ast.Call]]]:
+    """(CFG nodes of fn at which the shared path-write helper is certainly executed, direct call sites (holder, call)).
+    A call of another method of the store counts when that method executes the helper on every one of its normal paths."""
+    nodes, sites = [], []
+    for c in calls(fn):
+        n = call_name(c)
+        if n and st.repo.resolve_dotted(st.m, n) == href:
+            nodes += _call_nodes(cfg, c)
+            sites.append((fn, c))
+            continue
+        sm = _self_method_call(c)
+        callee = st.method(sm) if sm and depth > 0 else None
+        if callee is not None and callee is not fn and not any(isinstance(x, (ast.Yield, ast.YieldFrom)) for x in walk_shallow(callee)):
+            ccfg = CFG(callee)
+            inner, isites = _path_writes(st, callee, ccfg, href, depth - 1)
+            if inner and _skip_path(ccfg, [ccfg.entry], inner) is None:
+                nodes += _call_nodes(cfg, c)
+                sites += isites
+    return nodes, sites
+
+
+def _r3(chk, stores: list[_Cls], mem: Module) -> None:
+    """R3: no mutator has a normal path that skips its write."""
+    href = f"{MEM}:set_by_path"
+    hparams = [a.arg for a in mem.functions["set_by_path"].args.args]
+    n_sites = n_persist = n_ctx = n_commit = 0
+    ctx_verdict: dict[tuple[str, str], tuple[bool, str, list[str], str]] = {}
+
+    def ctx_status(st: _Cls, name: str, callee: ast.AST):
+        k = (st.name, name)
+        if k not in ctx_verdict:
+            ctx_verdict[k] = _ctx_commit_status(st, callee)
+        return ctx_verdict[k]
+
+    for st in stores:
+        # -- edit_state writes the yielded object back on every normal path
+        es = st.method("edit_state")
+        if es is None:
+            n_ctx += 1  # missing protocol method: reported by R1a
+        else:
+            ok, reason, p, how = ctx_status(st, "edit_state", es)
+            n_ctx += 1
+            chk.ob("C19.R3", f"{st.name}.edit_state: every normal path after the yield writes the edited object back ({how})", ok, m=st.m, node=es, fn=es,
+                   instance=f"{st.name}.edit_state:write-back-on-every-path", reason=reason, path=p)
+
+        # -- set: every normal path executes set_by_path, and what it wrote into is persisted on every normal path
+        fn = st.method("set")
+        if fn is None:
+            n_sites, n_persist = n_sites + 1, n_persist + 1  # missing protocol method: reported by R1a, nothing to place here
+        else:
+            cfg = CFG(fn)
+            nodes, sites = _path_writes(st, fn, cfg, href)
+            n_sites += 1
+            if not nodes:
+                n_persist += 1
+                chk.ob("C19.R3", f"{st.name}.set executes set_by_path on every path that returns normally (whatever the value)", False, m=st.m, node=fn, fn=fn,
+                       instance=f"{st.name}.set:path-write-on-every-path",
+                       reason=f"no execution of {href} found in {st.name}.set or in the methods it calls on self: no path performs the shared path write")
+            else:
+                skip = _skip_path(cfg, [cfg.entry], nodes)
+                why, p = _describe_skip(fn, cfg, skip) if skip else ("", [])
+                chk.ob("C19.R3", f"{st.name}.set executes set_by_path on every path that returns normally (whatever the value)", skip is None, m=st.m,
+                       node=(skip[-2].ast if skip and len(skip) > 1 and skip[-2].ast is not None else fn), fn=fn, instance=f"{st.name}.set:path-write-on-every-path",
+                       reason=f"a path through {st.name}.set returns normally without calling set_by_path{why}: `set(path, value)` is silently dropped there, "
+                              f"so a later get(path) differs from the nested-dict model and from the sibling store, which writes unconditionally", path=p)
+                for holder, c in sites:
+                    b = _bind_args(c, hparams)
+                    if b is None or 0 not in b:
+                        raise AnchorError(f"C19.R3: cannot read the state argument of `{ast.unparse(c)[:70]}` in {st.name}.{holder.name}")
+                    target = b[0]
+                    hcfg = cfg if holder is fn else CFG(holder)
+                    ok, reason, p, how = True, "", [], ""
+                    cm = _ctx_manager_of(st, c, target)
+                    if cm is not None:
+                        how = f"inside `with self.{cm[0]}()`"
+                        cok, creason, cp, _h = ctx_status(st, cm[0], cm[1])
+                        if not cok:
+                            ok, reason, p = False, f"the object is the one yielded by {cm[0]}, and " + creason, cp
+                    else:
+                        field = _is_stored_object(st, holder, target)
+                        if field:
+                            how = f"in place on self.{field}"
+                        else:
+                            how = "saved after the path write"
+                            commits = _commit_nodes(st, holder, hcfg, target)
+                            skip2 = _skip_path(hcfg, _call_nodes(hcfg, c), commits, include_starts=False)
+                            if skip2 is not None:
+                                why2, p = _describe_skip(holder, hcfg, skip2)
+                                ok = False
+                                reason = (f"`{ast.unparse(target)}` is a loaded copy of the state; after set_by_path a normal path returns without saving it"
+                                          f"{why2}: the value never reaches the store")
+                    n_persist += 1
+                    chk.ob("C19.R3", f"{st.name}.set: the object set_by_path writes into is the stored state or is saved on every normal path ({how})", ok,
+                           m=st.m, node=c, fn=holder, instance=f"{st.name}.set:path-write-persisted", reason=reason, path=p)
+
+        # -- set_state / clear: every normal path performs a write of the state (or delegates to a mutator that does)
+        for op in ("set_state", "clear"):
+            fn = st.method(op)
+            if fn is None:
+                n_commit += 1  # missing protocol method: reported by R1a
+                continue
+            cfg = CFG(fn)
+            nodes = _commit_nodes(st, fn, cfg)
+            for c in calls(fn):
+                sm = _self_method_call(c)
+                if sm in ("set", "set_state", "clear") and sm != op:
+                    nodes += _call_nodes(cfg, c)
+                elif sm and st.method(sm) is not None and _decorators(st.method(sm)) & {"asynccontextmanager", "contextmanager"} and isinstance(parent(c), ast.withitem):
+                    if ctx_status(st, sm, st.method(sm))[0]:
+                        nodes += _call_nodes(cfg, c)
+            if not nodes:
+                raise AnchorError(f"C19.R3: no write of the state recognised in {st.name}.{op}")
+            n_commit += 1
+            skip = _skip_path(cfg, [cfg.entry], nodes)
+            why, p = _describe_skip(fn, cfg, skip) if skip else ("", [])
+            chk.ob("C19.R3", f"{st.name}.{op} writes the state on every path that returns normally", skip is None, m=st.m,
+                   node=(skip[-2].ast if skip and len(skip) > 1 and skip[-2].ast is not None else fn), fn=fn, instance=f"{st.name}.{op}:write-on-every-path",
+                   reason=f"a path through {st.name}.{op} returns normally without writing the state{why}: the operation is silently dropped there, "
+                          f"unlike the nested-dict model and the sibling store", path=p)
+    chk.floor("C19.R3", "`set` methods whose set_by_path execution was placed on the CFG (one per store)", n_sites, 2)
+    chk.floor("C19.R3", "set_by_path sites whose target object was classified (stored object / edit_state / saved copy)", n_persist, 2)
+    chk.floor("C19.R3", "edit_state generator context managers checked for write-back after the yield", n_ctx, 2)
+    chk.floor("C19.R3", "set_state / clear methods checked for a write on every normal path", n_commit, 4)
+
+
 # ----------------------------------------------------------------------------------------------- run
 
 
@@ -654,6 +950,9 @@ def run(chk) -> None:
                 chk.ob("C19.R2", f"{st.name}.get_state returns a snapshot: top-level fields/keys of the result are not shared with the store", False,
                        m=st.m, node=r, fn=fn, instance=f"{st.name}.get_state:{k}", reason=reason, path=path)
     chk.floor("C19.R2", "return statements of get_state in both stores", nret, 2)
+
+    # ---------------------------------------------------------------- R3: no mutator has a normal path that skips its write
+    _r3(chk, stores, mem)
     chk.observe("C19: value-level equality with a nested-dict model over operation sequences is not decided; R1 reduces it to both stores calling the "
                 "same four helpers with the same argument roles and to set_state never writing an unmerged value.")
 
@@ -688,6 +987,7 @@ _SAVE_TO_SET_STATE = ("            if should_close:\n                conn.commit
                       "            current_state = self._load_state()\n            merged = merge_state(current_state, state)\n")
 _SET_STATE_NOW = '        async with self._lock:\n            current_state = self._load_state()\n            merged = merge_state(current_state, state)\n            self._save_state(merged)  # type: ignore[arg-type]\n'
 _SET_STATE_PRE_FIX = '        conn = self._connect()\n        try:\n            cursor = conn.cursor()\n            cursor.execute(\n                "SELECT state_json FROM workflow_state WHERE run_id = ?",\n                (self._run_id,),\n            )\n            row = cursor.fetchone()\n\n            if row is None:\n                self._save_state(state, conn)\n                conn.commit()\n                return\n\n            current_state = self._deserialize_state(row[0])\n            merged = merge_state(current_state, state)\n            self._save_state(merged, conn)  # type: ignore[arg-type]\n            conn.commit()\n        finally:\n            self._release(conn)\n'
+_SQL_SET_NOW = "        async with self.edit_state() as state:\n            set_by_path(state, path, value)\n"
 _HOOK_COPY = "        if not deep:\n            # pydantic's shallow copy shares private attribute values; the dynamic\n            # fields live in `_data`, so give the copy its own top-level dict.\n            copied._data = dict(self._data)\n"
 
 TWINS = [
@@ -741,4 +1041,39 @@ TWINS = [
     Twin("benign: copy hook uses a dict display", _PE, "            copied._data = dict(self._data)", "            copied._data = {**self._data}", None),
     Twin("benign: copy hook sets the private attribute through object.__setattr__", _PE, "            copied._data = dict(self._data)",
          "            object.__setattr__(copied, \"_data\", dict(self._data))", None),
+    # ---- R3 breaking
+    Twin("seed: sqlite set returns early when the stored value == value", _PS, _SQL_SET_NOW,
+         "        async with self._lock:\n            state = self._load_state()\n            if get_by_path(state, path, None) == value:\n                return\n"
+         "            set_by_path(state, path, value)\n            self._save_state(state)\n", "C19.R3"),
+    Twin("sqlite set guards the path write with a != comparison (nested if, no return)", _PS, _SQL_SET_NOW,
+         "        async with self.edit_state() as state:\n            if get_by_path(state, path, None) != value:\n                set_by_path(state, path, value)\n", "C19.R3"),
+    Twin("memory set skips values already stored", _PM, "        async with self._lock:\n            set_by_path(self._state, path, value)",
+         "        async with self._lock:\n            unchanged = get_by_path(self._state, path, None) == value\n            if unchanged:\n                return\n"
+         "            set_by_path(self._state, path, value)", "C19.R3"),
+    Twin("sqlite set saves the loaded copy only for non-None values", _PS, _SQL_SET_NOW,
+         "        async with self._lock:\n            state = self._load_state()\n            set_by_path(state, path, value)\n            if value is not None:\n"
+         "                self._save_state(state)\n", "C19.R3"),
+    Twin("sqlite set writes into a loaded copy and never saves it", _PS, _SQL_SET_NOW,
+         "        async with self._lock:\n            state = self._load_state()\n            set_by_path(state, path, value)\n", "C19.R3"),
+    Twin("sqlite edit_state saves only when the edited state compares unequal", _PS, "            state = self._load_state()\n            yield state\n            self._save_state(state)",
+         "            state = self._load_state()\n            before = state.model_copy(deep=True)\n            yield state\n            if state != before:\n                self._save_state(state)", "C19.R3"),
+    Twin("sqlite set_state skips the save when the merge compares equal to the current state", _PS, "            self._save_state(merged)  # type: ignore[arg-type]",
+         "            if merged == current_state:\n                return\n            self._save_state(merged)  # type: ignore[arg-type]", "C19.R3"),
+    Twin("memory set_state keeps the old object when the merge compares equal", _PM, "            self._state = merge_state(self._state, state)",
+         "            merged = merge_state(self._state, state)\n            if merged != self._state:\n                self._state = merged", "C19.R3"),
+    Twin("memory set works on a copy that is never stored", _PM, "            set_by_path(self._state, path, value)",
+         "            state = self._state.model_copy()\n            set_by_path(state, path, value)", "C19.R3"),
+    # ---- R3 benign
+    Twin("benign: sqlite set written out (lock, load, path write, save) without a skip", _PS, _SQL_SET_NOW,
+         "        async with self._lock:\n            state = self._load_state()\n            set_by_path(state, path, value)\n            self._save_state(state)\n", None),
+    Twin("benign: memory set through a local alias of the stored object", _PM, "            set_by_path(self._state, path, value)",
+         "            state = self._state\n            set_by_path(state, path, value)", None),
+    Twin("benign: sqlite set rejects a non-string path by raising", _PS, _SQL_SET_NOW,
+         "        if not isinstance(path, str):\n            raise TypeError(\"path must be a string\")\n" + _SQL_SET_NOW, None),
+    Twin("benign: memory edit_state yields the stored object, no write-back needed", _PM, "            state = self._state\n\n            yield state\n\n            self._state = state",
+         "            yield self._state", None),
+    Twin("benign: sqlite edit_state saves in an else-less try/finally-free block through a renamed local", _PS, "            state = self._load_state()\n            yield state\n            self._save_state(state)",
+         "            loaded = self._load_state()\n            yield loaded\n            self._save_state(loaded)", None),
+    Twin("benign: sqlite set_state returns explicitly after the save", _PS, "            self._save_state(merged)  # type: ignore[arg-type]",
+         "            self._save_state(merged)  # type: ignore[arg-type]\n            return None", None),
 ]
